@@ -333,6 +333,31 @@ impl World {
                     Err(e) => json!({"ev":"merge","ok":false,"sids":sids,"err":errclass(&e),"obs":self.observe()}),
                 }
             }
+            "wait_uncommitted" => {
+                // wait until the registers hold at least n uncommitted segments (workers cut them
+                // asynchronously); an observation of the hook state, not a verdict
+                let n = op["n"].as_u64().unwrap_or(1) as usize;
+                let t0 = std::time::Instant::now();
+                while self.regs.lock().unwrap().0.len() < n && t0.elapsed() < std::time::Duration::from_secs(3) {
+                    std::thread::sleep(std::time::Duration::from_millis(2));
+                }
+                let have = self.regs.lock().unwrap().0.len();
+                json!({"ev":"wait_uncommitted","ok":have >= n,"n":have})
+            }
+            "merge_uncommitted" => {
+                // IndexWriter::merge on the segments currently in the uncommitted register
+                let uuids: Vec<String> = self.regs.lock().unwrap().0.clone();
+                let ids: Vec<SegmentId> = uuids.iter().filter_map(|u| SegmentId::from_uuid_string(u).ok()).collect();
+                let sids: Vec<usize> = ids.iter().map(|i| self.tracer.seg(&i.uuid_string())).collect();
+                if ids.is_empty() {
+                    return json!({"ev":"merge_uncommitted","ok":false,"err":"nosegments"});
+                }
+                let Some(w) = self.writer.as_mut() else { return nowriter() };
+                match w.merge(&ids).wait() {
+                    Ok(_) => json!({"ev":"merge_uncommitted","ok":true,"sids":sids}),
+                    Err(e) => json!({"ev":"merge_uncommitted","ok":false,"sids":sids,"err":errclass(&e)}),
+                }
+            }
             "wait_merges" => {
                 // consumes the writer; a new one is opened afterwards by a separate op
                 let Some(w) = self.writer.take() else { return nowriter() };
